@@ -8,6 +8,7 @@ import (
 	"math/rand"
 	"os"
 	"strings"
+	"sync"
 
 	"github.com/formancehq/ledger/internal/storage/ledgerstore"
 	"github.com/formancehq/ledger/verifharness/fakepg"
@@ -24,30 +25,67 @@ type slot struct {
 	Mk   func(v string) query.Builder
 }
 
-var slots = []slot{
-	{"accounts", "address", func(v string) query.Builder { return query.Match("address", v) }},
-	{"accounts", "metadata-value", func(v string) query.Builder { return query.Match("metadata[k]", v) }},
-	{"accounts", "metadata-key", func(v string) query.Builder { return query.Match("metadata["+v+"]", "x") }},
-	{"accounts", "balance-asset", func(v string) query.Builder { return query.Lt("balance["+v+"]", 100) }},
-	{"accounts", "address-in-and", func(v string) query.Builder {
-		return query.And(query.Match("address", v), query.Match("metadata[k]", "x"))
-	}},
-	{"accounts", "address-in-not", func(v string) query.Builder { return query.Not(query.Match("address", v)) }},
-	{"transactions", "account", func(v string) query.Builder { return query.Match("account", v) }},
-	{"transactions", "source", func(v string) query.Builder { return query.Match("source", v) }},
-	{"transactions", "destination", func(v string) query.Builder { return query.Match("destination", v) }},
-	{"transactions", "reference", func(v string) query.Builder { return query.Match("reference", v) }},
-	{"transactions", "reference-lt", func(v string) query.Builder { return query.Lt("reference", v) }},
-	{"transactions", "timestamp", func(v string) query.Builder { return query.Gte("timestamp", v) }},
-	{"transactions", "metadata-value", func(v string) query.Builder { return query.Match("metadata[k]", v) }},
-	{"transactions", "metadata-key", func(v string) query.Builder { return query.Match("metadata["+v+"]", "x") }},
-	{"transactions", "account-in-or", func(v string) query.Builder {
-		return query.Or(query.Match("account", v), query.Match("reference", v))
-	}},
-	{"logs", "date", func(v string) query.Builder { return query.Lt("date", v) }},
-	{"balances", "address", func(v string) query.Builder { return query.Match("address", v) }},
-	{"balances", "metadata-value", func(v string) query.Builder { return query.Match("metadata[k]", v) }},
-	{"balances", "metadata-key", func(v string) query.Builder { return query.Match("metadata["+v+"]", "x") }},
+// every key each endpoint's filter context knows x every comparison operator x both places a client
+// string can sit (the value; the text between the brackets of metadata[...] / balance[...]), plus
+// composites. Combinations the store refuses count as rejected requests.
+var slots = buildSlots()
+
+func opBuilder(op, key string, v any) query.Builder {
+	switch op {
+	case "$lt":
+		return query.Lt(key, v)
+	case "$lte":
+		return query.Lte(key, v)
+	case "$gt":
+		return query.Gt(key, v)
+	case "$gte":
+		return query.Gte(key, v)
+	}
+	return query.Match(key, v)
+}
+
+func buildSlots() []slot {
+	var out []slot
+	ops := []string{"$match", "$lt", "$lte", "$gt", "$gte"}
+	valueKeys := map[string][]string{
+		"accounts":     {"address", "metadata[k]", "balance", "balance[USD]"},
+		"transactions": {"account", "source", "destination", "reference", "timestamp", "metadata[k]"},
+		"logs":         {"date"},
+		"balances":     {"address", "metadata[k]"},
+	}
+	bracketKeys := map[string][]string{
+		"accounts":     {"metadata", "balance"},
+		"transactions": {"metadata"},
+		"balances":     {"metadata"},
+	}
+	for _, ep := range []string{"accounts", "transactions", "logs", "balances"} {
+		for _, key := range valueKeys[ep] {
+			for _, op := range ops {
+				key, op := key, op
+				out = append(out, slot{ep, key + "-value-" + op, func(v string) query.Builder { return opBuilder(op, key, v) }})
+			}
+		}
+		for _, key := range bracketKeys[ep] {
+			for _, op := range ops {
+				key, op := key, op
+				var operand any = "x"
+				if key == "balance" {
+					operand = 100
+				}
+				out = append(out, slot{ep, key + "-key-" + op, func(v string) query.Builder { return opBuilder(op, key+"["+v+"]", operand) }})
+			}
+		}
+	}
+	out = append(out,
+		slot{"accounts", "address-in-and", func(v string) query.Builder {
+			return query.And(query.Match("address", v), query.Match("metadata[k]", "x"))
+		}},
+		slot{"accounts", "address-in-not", func(v string) query.Builder { return query.Not(query.Match("address", v)) }},
+		slot{"transactions", "account-in-or", func(v string) query.Builder {
+			return query.Or(query.Match("account", v), query.Match("reference", v))
+		}},
+	)
+	return out
 }
 
 // statements the real store sends for this slot and value (list + count / aggregate), or rejected
@@ -302,47 +340,84 @@ func modeSQLShape(in, out, stats string, sampleN int, seed int64) {
 		values = append(values, c)
 	}
 	total := len(values) * len(slots)
+	type job struct {
+		c       vcase
+		s       slot
+		n       int
+		sampled bool
+	}
+	type result struct {
+		line   map[string]any
+		sample map[string]any
+		rej    bool
+		same   bool
+		sv     []string
+	}
+	var jobs []job
 	for _, c := range values {
-		v, h := runeString(c.V), runeString(c.H)
 		for _, s := range slots {
 			n++
-			withPit := n%3 == 0
-			sv, rej := record(s, v, withPit)
-			sh, rejH := record(s, h, withPit)
-			line := map[string]any{"ep": s.Ep, "slot": s.Name, "value": v, "harmless": h, "rejected": rej, "harmlessRejected": rejH}
-			same := true
-			if rej {
-				rejected++
-			} else {
+			jobs = append(jobs, job{c, s, n, rng.Intn(total) < sampleN})
+		}
+	}
+	results := make([]result, len(jobs))
+	var wg sync.WaitGroup
+	sem := make(chan struct{}, 14)
+	for i := range jobs {
+		wg.Add(1)
+		sem <- struct{}{}
+		go func(i int) {
+			defer wg.Done()
+			defer func() { <-sem }()
+			j := jobs[i]
+			v, h := runeString(j.c.V), runeString(j.c.H)
+			withPit := j.n%3 == 0
+			sv, rej := record(j.s, v, withPit)
+			sh, rejH := record(j.s, h, withPit)
+			line := map[string]any{"ep": j.s.Ep, "slot": j.s.Name, "value": v, "harmless": h, "rejected": rej, "harmlessRejected": rejH}
+			r := result{line: line, rej: rej, same: true, sv: sv}
+			if !rej {
 				a, b := strings.Join(sv, "\n;;\n"), strings.Join(sh, "\n;;\n")
-				same = sameInts(skeleton(a), skeleton(b))
-				if !same {
-					changed++
+				r.same = sameInts(skeleton(a), skeleton(b))
+				if !r.same {
 					line["sql"], line["sqlHarmless"] = a, b
 				}
-				// a seeded sample is also judged by TLC on the recorded characters (cross-check of the transcription)
-				if rng.Intn(total) < sampleN || (!same && changed <= 40) {
+				// a seeded sample (and every flagged line) is also judged by TLC on the recorded characters
+				if (j.sampled || !r.same) && len(sv) > 0 && len(sh) > 0 {
 					// TLC runs the automaton over every character: give it the list statement only
 					// (the count statement wraps the same text), unless the difference is elsewhere
 					a1, b1 := sv[0], sh[0]
-					if !same && sameInts(skeleton(a1), skeleton(b1)) {
+					if !r.same && sameInts(skeleton(a1), skeleton(b1)) {
 						a1, b1 = a, b
 					}
-					sl := map[string]any{"ep": s.Ep, "slot": s.Name, "value": c.V, "sql": codepoints(a1), "base": codepoints(b1), "goSame": sameInts(skeleton(a1), skeleton(b1))}
-					bts, _ := json.Marshal(sl)
-					sw.Write(bts)
-					sw.WriteByte('\n')
+					r.sample = map[string]any{"ep": j.s.Ep, "slot": j.s.Name, "value": j.c.V, "sql": codepoints(a1), "base": codepoints(b1), "goSame": sameInts(skeleton(a1), skeleton(b1))}
 				}
 			}
-			line["sameStructure"] = same
-			bySlot[s.Ep+"/"+s.Name]++
-			if len(samples) < 2 && strings.Contains(v, "'") && s.Name == "reference" {
-				samples = append(samples, map[string]any{"slot": s.Ep + "/" + s.Name, "value": v, "sql": strings.Join(sv, " ;; ")})
-			}
-			bts, _ := json.Marshal(line)
-			w.Write(bts)
-			w.WriteByte('\n')
+			line["sameStructure"] = r.same
+			results[i] = r
+		}(i)
+	}
+	wg.Wait()
+	for i, r := range results {
+		j := jobs[i]
+		if r.rej {
+			rejected++
 		}
+		if !r.same {
+			changed++
+		}
+		if r.sample != nil && (jobs[i].sampled || changed <= 40) {
+			bts, _ := json.Marshal(r.sample)
+			sw.Write(bts)
+			sw.WriteByte('\n')
+		}
+		bySlot[j.s.Ep+"/"+j.s.Name]++
+		if len(samples) < 2 && strings.Contains(r.line["value"].(string), "'") && j.s.Name == "reference-value-$match" {
+			samples = append(samples, map[string]any{"slot": j.s.Ep + "/" + j.s.Name, "value": r.line["value"], "sql": strings.Join(r.sv, " ;; ")})
+		}
+		bts, _ := json.Marshal(r.line)
+		w.Write(bts)
+		w.WriteByte('\n')
 	}
 	w.Flush()
 	of.Close()
